@@ -2,6 +2,7 @@ package c09
 
 import (
 	"fmt"
+	"path/filepath"
 	"strings"
 	"testing"
 	"time"
@@ -62,11 +63,35 @@ type cliCase struct {
 	Cmd     string
 	Param   string
 	Gran    string
+	// the profile's own frame-dropping expressions (each may be absent, valid or not a regular expression)
+	Drop, Keep string
+}
+
+// pathValues: what people put into trim_path / source_path (lists, trailing separators, the root, a file name
+// of the profile itself)
+func pathValues(p *gen.Prof) []string {
+	out := []string{"/", ":", "/:", "/src/app:", ":/usr", "/proc/self/cwd", "/proc/self/cwd/", ".", "..", "//", "/usr/src:/usr/src/"}
+	for _, f := range p.Functions {
+		if f.Filename != "" {
+			out = append(out, f.Filename, f.Filename+"/", filepath.Dir(f.Filename))
+		}
+	}
+	return out
 }
 
 func genCLI(t *rapid.T) *cliCase {
 	c := &cliCase{P: gen.Profile(t, hostOpts), Assigns: genAssigns(t, 4), Cmd: rapid.SampledFrom(commands).Draw(t, "cmd"),
 		Param: rapid.SampledFrom(hostileStrings).Draw(t, "param"), Gran: rapid.SampledFrom([]string{"functions", "filefunctions", "files", "lines", "addresses"}).Draw(t, "gran")}
+	frameRx := []string{"", "", "", "main", ".*", "(", "zzz", "a|b"}
+	c.Drop, c.Keep = rapid.SampledFrom(frameRx).Draw(t, "dropframes"), rapid.SampledFrom(frameRx).Draw(t, "keepframes")
+	for i, a := range c.Assigns {
+		if (a.Name == "trim_path" || a.Name == "source_path") && rapid.Bool().Draw(t, "pathvalue") {
+			c.Assigns[i].Value = rapid.SampledFrom(pathValues(c.P)).Draw(t, "pathv")
+		}
+	}
+	if rapid.IntRange(0, 5).Draw(t, "withpaths") == 0 {
+		c.Assigns = append(c.Assigns, assign{rapid.SampledFrom([]string{"trim_path", "source_path"}).Draw(t, "pathopt"), rapid.SampledFrom(pathValues(c.P)).Draw(t, "pathv2")})
+	}
 	if (c.Cmd == "list" || c.Cmd == "weblist") && rapid.Bool().Draw(t, "farlines") {
 		// one function sampled at two lines that are very far apart, listed by a pattern that matches it
 		farLines(c.P)
@@ -81,6 +106,9 @@ func genCLI(t *rapid.T) *cliCase {
 
 func checkCLI(c *cliCase, o *vk.Obs) []string {
 	p := c.P.Build()
+	p.DropFrames, p.KeepFrames = c.Drop, c.Keep
+	o.LabelIf(c.Drop == "" && c.Keep != "", "keep_frames-without-drop_frames")
+	o.LabelIf(c.Drop != "", "drop_frames")
 	fl := map[string]string{"output": "out"}
 	for _, a := range c.Assigns {
 		fl[a.Name] = a.Value
